@@ -343,7 +343,15 @@ def build_targets(case, extra=None):
     return _ret([A.m, A().m], [S.m, S().m], alog, slog, norm, 0)
 
 
-def check(case):
+class LoopSwitch:
+    """awaited by a history between two operations (C17 only): the driver gets the chance to go on under ANOTHER
+    event loop - none at all, or a fresh asyncio loop"""
+
+    def __await__(self):
+        yield self
+
+
+def check(case, drive=None):
     ctx = Ctx("a")
     extra = {}
     afns, sfns, alog, slog, norm, bound = build_targets(case, extra)
@@ -382,6 +390,10 @@ def check(case):
         nonlocal discarded
         for step, op in enumerate(case["ops"]):
             name, inst = op[0], op[1]
+            if name == "switch-loop":
+                if drive is not None:
+                    await LoopSwitch()
+                continue
             if name == "copy":
                 if case["kind"] == "method" and not case.get("eq_instances"):
                     afns[1], sfns[1] = afns[2]()
@@ -476,7 +488,7 @@ def check(case):
                 return ("cache_parameters-differ", f"{params} vs functools {sfn.cache_parameters()}")
         return None
 
-    outcome = run(ctx, history())
+    outcome = run(ctx, history()) if drive is None else drive(history())
     problem = expect_return(outcome, "C10/history")
     if ctx.suspensions:
         raise Violation("C10/suspended-without-user-awaitable", f"{ctx.suspensions}")
